@@ -24,6 +24,8 @@ import (
 	"time"
 
 	"verif/harness/core"
+	_ "verif/harness/codecheck"
+	_ "verif/harness/fdcheck"
 	_ "verif/harness/gsim"
 	"verif/harness/props"
 )
@@ -312,7 +314,7 @@ func run(id string, args []string) int {
 			continue
 		}
 		fmt.Printf("VIOLATION property=%s replay=%s\n", id, v.Replay)
-		fmt.Printf("  [%s] %s\n", v.Signature, clip(v.What, 1800))
+		fmt.Printf("  [%s] %s\n", v.Signature, clip(v.What, 700))
 	}
 	for sig, n := range knownHits {
 		if n == 0 || printedKnown[sig] {
